@@ -99,7 +99,7 @@ Definition max_pt (w : fw) (d : dtype) (xs : list Z) : I.type :=
 Definition abs_up (z : I.type) : Z :=
   match I.abs z with Interval.Float.Ibnd _ u => match F.toF u with Basic.Float _ m e => (if (0 <=? e) then Z.pos m * 2 ^ e else Z.pos m / 2 ^ (- e) + 1) | _ => 0 end | _ => 1000 end.
 Definition f_exp (w : fw) (z : I.type) : I.type :=
-  match w with W32 => widen w (8 + 4 * abs_up z) (I.exp prec z) | W64 => widen w 4 (I.exp prec z) end.
+  match w with W32 => widen w (8 + 4 * abs_up z) (sexp z) | W64 => widen w 4 (sexp z) end.
 
 (* one slice: inputs as point intervals -> enclosures of what a float kernel computing
    exp(x - m) / sum exp(x - m) (resp. (x - m) - ln sum) may return, for the shift m *)
@@ -121,7 +121,9 @@ Definition slice_ok (w : fw) (d : dtype) (logsm : bool) (xs : list Z) (os : list
   | None => false
   | Some px =>
       let enc := soft_slice w logsm px (max_pt w d xs) in
-      all_fin w os && all2 (fun o E => res_in w o E) os enc &&
+      (* LogSoftmax may legitimately round to -Inf when the exact value is below the float range:
+         res_in accepts an infinity only where the enclosure reaches beyond the largest finite value *)
+      (logsm || all_fin w os) && all2 (fun o E => res_in w o E) os enc &&
       (logsm || (forallb (fun o => match decode w o with VFin m _ => 0 <=? m | _ => false end) os &&
                  match all_some_iv w os with
                  | Some po => I.subset (isum po) (f_sum w enc) && I.subset ione (f_sum w enc)
@@ -149,18 +151,25 @@ Definition soft_judge (logsm : bool) (attrs : list attr) (x : tval) (obs : obser
            end
   end.
 
-(* K1 (gorgonia, last-axis kernel): the running maximum of EVERY row starts from the first element of
-   the whole tensor; a row whose own maximum is below that element is shifted too far: degraded
-   accuracy, and NaN once all its exponentials underflow *)
+(* K1 (gorgonia, last-axis kernels softMaxLastDimF32/F64): the running maximum of every row starts
+   from the FIRST ELEMENT OF THE WHOLE TENSOR and the row's own first element is never looked at
+   (`maxInput := xArr[0]; for j := 1; ...`). For a row other than the first whose true maximum differs
+   from max(x[0], row[1:]) the shift is wrong: overflow to Inf/NaN, underflow of the whole row, or
+   degraded accuracy *)
+Definition kmax (d : dtype) (l : list Z) : option Z :=
+  match best Z.gtb false (map (fun p => (fst p, okey d (snd p))) (combine (seq 0 (List.length l)) l)) None with
+  | Some (_, k) => k | None => None end.
 Definition soft_known (attrs : list attr) (x : tval) : bool :=
   let r := List.length (sh x) in
   let axis := match find_int "axis" attrs with Some a => a | None => -1 end in
-  match norm_axis r axis, okey (dt x) (nth 0 (pl x) 0) with
-  | Some ax, Some k0 =>
+  match norm_axis r axis with
+  | Some ax =>
       (Nat.eqb (S ax) r) &&
-      existsb (fun sl => forallb (fun i => match okey (dt x) (get_pl x i) with Some k => k <? k0 | None => false end) sl)
+      existsb (fun sl => let row := map (get_pl x) sl in
+                         negb (match kmax (dt x) row, kmax (dt x) (nth 0 (pl x) 0 :: tl row) with
+                               | Some a, Some b => a =? b | _, _ => false end))
               (tl (slices (sh x) [ax]))
-  | _, _ => false
+  | None => false
   end.
 
 Definition spec (c : opcase) : spec_out :=
@@ -173,10 +182,122 @@ Definition spec (c : opcase) : spec_out :=
   | _ => SOutOfDomain
   end.
 
-(* M: the code as repaired computes what S describes (ArgMax through gorgonia's Argmax: first NaN,
-   else first maximum; Reduce* through Max/Min over the normalised axes) *)
+(* ---------------- M: the code (as repaired) over gorgonia's kernels ---------------- *)
+(* gorgonia ArgmaxF32/F64/I*: the first element is taken as it is; from the second on a NaN or a
+   +Inf returns its index at once; otherwise a strictly greater element takes over *)
+Definition is_nan_or_pinf (d : dtype) (v : Z) : bool :=
+  match d with
+  | Float32 => match decode W32 v with VNaN => true | VInf false => true | _ => false end
+  | Float64 => match decode W64 v with VNaN => true | VInf false => true | _ => false end
+  | _ => false
+  end.
+Definition gt_go (d : dtype) (a b : Z) : bool :=
+  match okey d a, okey d b with Some x, Some y => y <? x | _, _ => false end.
+Fixpoint argmax_go_from (d : dtype) (l : list Z) (i : nat) (best_i : nat) (f : Z) : nat :=
+  match l with
+  | [] => best_i
+  | v :: r => if is_nan_or_pinf d v then i
+              else if gt_go d v f then argmax_go_from d r (S i) i v else argmax_go_from d r (S i) best_i f
+  end.
+Definition argmax_go (d : dtype) (l : list Z) : nat :=
+  match l with [] => 0%nat | v :: r => argmax_go_from d r 1 0 v end.
+
+Definition argmax_model (attrs : list attr) (x : tval) : mres (list (option tval)) :=
+  let r := List.length (sh x) in
+  let axis := match find_int "axis" attrs with Some a => a | None => 0 end in
+  let keepdims := match find_int "keepdims" attrs with Some v => negb (v =? 0) | None => true end in
+  match norm_axis r axis with
+  | None => MErr
+  | Some ax =>
+      let res := map (fun sl => Z.of_nat (argmax_go (dt x) (map (get_pl x) sl))) (slices (sh x) [ax]) in
+      MOk [Some {| dt := Int64; sh := out_shape (sh x) [ax] keepdims; pl := res |}]
+  end.
+
+(* gorgonia OptimizedReduce, one axis: ReduceFirst (axis 0) and ReduceLast (last axis) reduce what
+   they should; the "default" kernel for a middle axis (the reduceDefault functions) walks the input with
+   innerStart, advancing it by `stride` (instead of (dimSize-1)*stride) when a group is complete *)
+Definition pick (mx : bool) (d : dtype) (a b : Z) : Z :=
+  if mx then (if gt_go d a b then a else b) else (if gt_go d b a then a else b).
+(* None: a read beyond the slice (Go: index out of range, a panic) *)
+Fixpoint default_inner (mx : bool) (d : dtype) (sliced : list Z) (dimSize stride : nat) (fuel : nat) (innerStart strideTrack : nat) : option (list Z) :=
+  match fuel with
+  | O => Some []
+  | S f =>
+      let n := List.length sliced in
+      if negb (innerStart + (dimSize - 1) * stride <? n)%nat then None else
+      let v := fold_left (fun acc k => pick mx d acc (nth (innerStart + k * stride) sliced 0)) (seq 1 (dimSize - 1)) (nth innerStart sliced 0) in
+      let st := S strideTrack in
+      let (st', is') := if (stride <=? st)%nat then (0%nat, (innerStart + stride)%nat) else (st, innerStart) in
+      option_map (cons v) (default_inner mx d sliced dimSize stride f (S is') st')
+  end.
+Fixpoint concat_opt {X} (l : list (option (list X))) : option (list X) :=
+  match l with [] => Some [] | Some a :: r => option_map (app a) (concat_opt r) | None :: _ => None end.
+Definition reduce_axis_go (mx : bool) (d : dtype) (s : list nat) (data : list Z) (axis : nat) : option (list nat * list Z) :=
+  let outs := (firstn axis s ++ skipn (S axis) s)%list in
+  let dimSize := nth axis s 1%nat in
+  if (axis =? 0)%nat || (S axis =? List.length s)%nat then
+    Some (outs, map (fun sl => match map (fun i => nth (flat s i) data 0) sl with
+                               | [] => 0 | v :: r => fold_left (pick mx d) r v end) (slices s [axis]))
+  else
+    let dim0 := nth 0 s 1%nat in
+    let outerStride := numel (skipn 1 s) in
+    let stride := numel (skipn (S axis) s) in
+    let expected := (outerStride / dimSize)%nat in
+    option_map (fun dd => (outs, dd))
+      (concat_opt (map (fun i => default_inner mx d (firstn outerStride (skipn (i * outerStride) data)) dimSize stride expected 0 0) (seq 0 dim0))).
+
+Fixpoint insert_sorted (a : nat) (l : list nat) : list nat :=
+  match l with [] => [a] | b :: r => if (a <=? b)%nat then a :: l else b :: insert_sorted a r end.
+Definition sort_nat (l : list nat) : list nat := fold_right insert_sorted [] l.
+Fixpoint nodup_nat (l : list nat) : bool := match l with [] => true | a :: r => negb (memn a r) && nodup_nat r end.
+
+Definition reduce_model (mx : bool) (attrs : list attr) (x : tval) : mres (list (option tval)) :=
+  let r := List.length (sh x) in
+  let keepdims := match find_int "keepdims" attrs with Some v => (v =? 1) | None => true end in
+  let axes := match find_ints "axes" attrs with Some l => norm_axes r l | None => Some [] end in
+  match axes with
+  | None => MErr
+  | Some A0 =>
+      let A := sort_nat (match A0 with [] => seq 0 r | _ => A0 end) in
+      if negb (nodup_nat A) then MErr else
+      let data :=
+        if (List.length A =? r)%nat then                                   (* all axes: the flat maximum *)
+          match pl x with [] => Some [] | v :: rest => Some [fold_left (pick mx (dt x)) rest v] end
+        else option_map (fun st => snd (snd st))
+               (fold_left (fun (st : option (nat * (list nat * list Z))) ax =>
+                             match st with
+                             | Some (done, (s, dat)) => option_map (fun r => (S done, r)) (reduce_axis_go mx (dt x) s dat (ax - done))
+                             | None => None end) A (Some (0%nat, (sh x, pl x)))) in
+      match data with
+      | None => MPanic
+      | Some data =>
+      MOk [Some {| dt := dt x; sh := out_shape (sh x) A keepdims; pl := data |}]
+      end
+  end.
+
 Definition model (c : opcase) : mres (list (option tval)) :=
-  match spec c with SMust v | SEither v => MOk v | SMustErr => MErr | SOutOfDomain => MErr end.
+  match oc_ins c with
+  | [Some x] =>
+      if is_op (oc_op c) "ArgMax" then argmax_model (oc_attrs c) x
+      else if is_op (oc_op c) "ReduceMax" then reduce_model true (oc_attrs c) x
+      else if is_op (oc_op c) "ReduceMin" then reduce_model false (oc_attrs c) x
+      else MErr
+  | _ => MErr
+  end.
+
+(* K2 (gorgonia Argmax kernels): a slice with a NaN or a +Inf on which the kernel's early return does
+   not give the first maximum / first NaN;  K3 (gorgonia reduceDefault): Max/Min over a middle axis of
+   a tensor of rank >= 4 *)
+Definition known_class (c : opcase) : option Z :=
+  match oc_ins c with
+  | [Some x] =>
+      if is_op (oc_op c) "ArgMax" then
+        (if existsb (is_nan_or_pinf (dt x)) (pl x) then Some 2 else None)
+      else if is_op (oc_op c) "ReduceMax" || is_op (oc_op c) "ReduceMin" then
+        (if (4 <=? List.length (sh x))%nat then Some 3 else None)
+      else None
+  | _ => None
+  end.
 
 Definition verdict (c : opcase) : Z :=
   if is_op (oc_op c) "Softmax" || is_op (oc_op c) "LogSoftmax" then
@@ -187,7 +308,8 @@ Definition verdict (c : opcase) : Z :=
     | _ => 4
     end
   else match spec c with
-       | SEither _ => if holds (spec c) (oc_obs c) then 0 else 2
-       | s => verdict_of s (model c) None (oc_obs c)
+       | SEither _ => if holds (spec c) (oc_obs c) then 0
+                      else (match known_class c with Some k => if agree (model c) (oc_obs c) then 100 + k else 2 | None => 2 end)
+       | s => verdict_of s (model c) (known_class c) (oc_obs c)
        end.
 Definition kind (c : opcase) : Z := match oc_obs c with OOk _ => 1 | OErr _ => 2 | OPanic => 3 end.
